@@ -9,6 +9,10 @@ delay=$(cat "$dir/$base.delay" 2>/dev/null || echo 0)
 echo "$fdir/$base $kind" >> "$dir/log"
 [ -d "$dir/cap" ] && cp "$q" "$dir/cap/${fdir}__$base"
 [ "$delay" != "0" ] && sleep "$delay"
+# firstnocore: the first query of this script directory is answered `unsat` with an EMPTY core "()", every later one `sat`
+if [ "$kind" = firstnocore ]; then
+  if [ "$(wc -l < "$dir/log")" -le 1 ]; then kind=unsatnocore; else kind=sat; fi
+fi
 case "$kind" in
   sat|satabs)
     val=$(cat "$dir/$base.val" 2>/dev/null || echo 0)
